@@ -565,6 +565,160 @@ theorem GetItemRes.slice_is_view {s s' : State} {o o' : Nat} {sel : Sel} (hr : G
   obtain ⟨p', hp', hrel⟩ := hr.cols p hp
   exact ⟨p', hp', hrel.key, hrel.view hv hne⟩
 
+/-! ## refinement to the record-per-atom specification: indexed writes and reads -/
+
+/-- **refines (`prop(key, index, value)`)** — in a state satisfying the invariant a returning indexed
+    write is the record update "for each `j`, property `key` of atom `sel.pos[j]` := row `j` of the value
+    broadcast to the selection and cast to the column's dtype (later duplicates win)":
+    the written column reads `writeRows old (sel.pos zip newRows)`; no property with another name changes
+    in any object; no array in another buffer changes; the objects themselves (names ↦ arrays) are
+    untouched.  (Arrays of the *same* name sharing the buffer — slices of the object or the object it was
+    sliced from — see the write, as in numpy.) -/
+theorem refines_propSet (s : State) (h : Inv s) (o : Nat) (key : String) (ix : Index) (v : Val) (s' : State)
+    (hrun : propSet o key (some ix) v s = (.ok (), s')) :
+    ∃ a sel newRows, (s.obj o).find key = some a ∧ resolve a.idx.length ix = .ok sel ∧
+      AssignedRows s a sel v newRows ∧ s'.objs = s.objs ∧ s'.syss = s.syss ∧
+      arrRows s' a = writeRows (arrRows s a) (sel.pos.zip newRows) ∧
+      (∀ o' p, p ∈ (s.obj o').props → p.key ≠ key → arrRows s' p.arr = arrRows s p.arr) ∧
+      (∀ c : Arr, c.buf ≠ a.buf → arrRows s' c = arrRows s c) := by
+  obtain ⟨⟨κ, hinv⟩, _⟩ := h
+  have := propSet_refines o key ix v s
+  unfold Post at this
+  rw [hrun] at this
+  obtain ⟨a, sel, newRows, hfind, hres, _, hn, _, hw⟩ := this.2 rfl
+  have hp := hinv.find_ok o key a hfind
+  obtain ⟨hpos, _⟩ := resolve_ok _ _ _ hres
+  refine ⟨a, sel, newRows, hfind, hres, hn, hw.objs, hw.syss, hw.readback hp.valid hp.nodup hpos, ?_, fun c hc => hw.read c hc⟩
+  intro o' p hp' hne
+  have hp0 := hinv.obj_props o' p hp'
+  apply hw.read
+  intro hb
+  apply hne
+  rw [← hp0.key, hb, hp.key]
+
+/-- a refused indexed write changes nothing. -/
+theorem propSet_error_unchanged (s : State) (o : Nat) (key : String) (ix : Index) (v : Val) (e : Err) (s' : State)
+    (hrun : propSet o key (some ix) v s = (.error e, s')) : s' = s := by
+  have := propSet_refines o key ix v s
+  unfold Post at this
+  rw [hrun] at this
+  exact this.1 e rfl
+
+/-- **refines (`prop(key)`)** — reading a whole column does not change the state and returns it. -/
+theorem refines_propGet_all (s : State) (o : Nat) (key : String) (v : Val) (s' : State)
+    (hrun : propGet o key none s = (.ok v, s')) :
+    s' = s ∧ ∃ a, (s.obj o).find key = some a ∧ v = arrVal s a := by
+  have := propGet_reads o key none s
+  unfold Post at this
+  rw [hrun] at this
+  exact ⟨this.1, this.2 v rfl⟩
+
+/-- **refines (`prop(key, index)`)** — an indexed read does not change the state and returns the rows at
+    the selected positions, in order (an integer index drops the leading axis). -/
+theorem refines_propGet_index (s : State) (o : Nat) (key : String) (i : Index) (v : Val) (s' : State)
+    (hrun : propGet o key (some i) s = (.ok v, s')) :
+    s' = s ∧ ∃ a, (s.obj o).find key = some a ∧
+      ∃ sel, resolve a.idx.length i = .ok sel ∧ sel.oob = false ∧ v.dt = arrDt s a ∧
+        v.data = (sel.pos.map (fun p => (arrRows s a)[p]?.getD [])).flatten ∧
+        v.shape = (if sel.scalar then arrTrail s a else sel.pos.length :: arrTrail s a) := by
+  have := propGet_reads o key (some i) s
+  unfold Post at this
+  rw [hrun] at this
+  exact ⟨this.1, this.2 v rfl⟩
+
+/-- write then read: `prop(key, index, value)` followed by `prop(key)` returns the updated column. -/
+theorem propSet_then_propGet (s : State) (h : Inv s) (o : Nat) (key : String) (ix : Index) (v : Val) (s' : State)
+    (hrun : propSet o key (some ix) v s = (.ok (), s')) :
+    ∃ a sel newRows, (s.obj o).find key = some a ∧ resolve a.idx.length ix = .ok sel ∧
+      AssignedRows s a sel v newRows ∧
+      propGet o key none s' = (.ok ⟨arrDt s a, a.idx.length :: arrTrail s a,
+        (writeRows (arrRows s a) (sel.pos.zip newRows)).flatten⟩, s') := by
+  obtain ⟨a, sel, newRows, hfind, hres, hn, hobjs, _, hrows, _, _⟩ := refines_propSet s h o key ix v s' hrun
+  refine ⟨a, sel, newRows, hfind, hres, hn, ?_⟩
+  have hobj : s'.obj o = s.obj o := by simp [State.obj, hobjs]
+  obtain ⟨⟨κ, hinv⟩, _⟩ := h
+  have hp := hinv.find_ok o key a hfind
+  have hw := propSet_refines o key ix v s
+  unfold Post at hw
+  rw [hrun] at hw
+  obtain ⟨a', sel', newRows', hfind', _, _, _, _, hwr⟩ := hw.2 rfl
+  have : a' = a := by rw [hfind] at hfind'; injection hfind' with h; exact h.symm
+  subst this
+  have hsame := hwr.same hp.valid.1
+  rw [propGet_none_eq o key s' a' (by rw [hobj]; exact hfind)]
+  simp only [arrVal, arrDt, arrTrail, hrows, hsame.1, hsame.2.1]
+
+/-! ## copying operations: fresh results, untouched operands -/
+
+/-- what `FrameOK` + `FreshObj` mean for a reader: every array of every object that existed before
+    reads the same value, the objects are the same, and the arrays of the new object share memory with
+    none of them. -/
+theorem frame_fresh_meaning (s s' : State) (h : Inv s) (o' : Nat)
+    (hf : FrameOK s.heap.length s.objs.length s s') (hfr : FreshObj s.heap.length o' s') :
+    (∀ o, o < s.objs.length → s'.obj o = s.obj o ∧ ∀ p ∈ (s.obj o).props, arrVal s' p.arr = arrVal s p.arr) ∧
+    (∀ p' ∈ (s'.obj o').props, ∀ o, ∀ p ∈ (s.obj o).props, sharesMem s' p'.arr p.arr = false) := by
+  obtain ⟨⟨κ, hinv⟩, _⟩ := h
+  refine ⟨?_, ?_⟩
+  · intro o ho
+    refine ⟨hf.2.1 o ho, ?_⟩
+    intro p hp
+    have hp0 := hinv.obj_props o p hp
+    have hb := hf.1 p.arr.buf hp0.valid.1
+    simp only [arrVal, arrDt, arrTrail, arrRows, hb]
+  · intro p' hp' o p hp
+    have hp0 := hinv.obj_props o p hp
+    have h1 := hfr p' hp'
+    have : p'.arr.buf ≠ p.arr.buf := by have := hp0.valid.1; omega
+    simp [sharesMem, this]
+
+/-- **copy_fresh / operand_unchanged (`atoms.extend(other)`)**. -/
+theorem extend_fresh_unchanged (s : State) (h : Inv s) (o donor : Nat) (ho : o < s.objs.length) (o' : Nat) (s' : State)
+    (hrun : extendWith o donor s = (.ok o', s')) :
+    (∀ o'', o'' < s.objs.length → s'.obj o'' = s.obj o'' ∧ ∀ p ∈ (s.obj o'').props, arrVal s' p.arr = arrVal s p.arr) ∧
+    (∀ p' ∈ (s'.obj o').props, ∀ o'', ∀ p ∈ (s.obj o'').props, sharesMem s' p'.arr p.arr = false) := by
+  obtain ⟨⟨κ, hinv⟩, hb⟩ := h
+  have := extendWith_frame hinv o donor (hb o ho)
+  unfold Post at this
+  rw [hrun] at this
+  obtain ⟨_, hf, hfr⟩ := this.2 o' rfl
+  exact frame_fresh_meaning s s' ⟨⟨κ, hinv⟩, hb⟩ o' hf hfr
+
+/-- **copy_fresh / operand_unchanged (`atoms.extend(n)`)**. -/
+theorem extendInt_fresh_unchanged (s : State) (h : Inv s) (o : Nat) (n : Int) (ho : o < s.objs.length) (o' : Nat)
+    (s' : State) (hrun : extendInt o n s = (.ok o', s')) :
+    (∀ o'', o'' < s.objs.length → s'.obj o'' = s.obj o'' ∧ ∀ p ∈ (s.obj o'').props, arrVal s' p.arr = arrVal s p.arr) ∧
+    (∀ p' ∈ (s'.obj o').props, ∀ o'', ∀ p ∈ (s.obj o'').props, sharesMem s' p'.arr p.arr = false) := by
+  obtain ⟨⟨κ, hinv⟩, hb⟩ := h
+  have := extendInt_frame hinv o n (hb o ho) ho
+  unfold Post at this
+  rw [hrun] at this
+  obtain ⟨hf, hfr⟩ := this.2 o' rfl
+  exact frame_fresh_meaning s s' ⟨⟨κ, hinv⟩, hb⟩ o' hf hfr
+
+/-- **copy_fresh / operand_unchanged (`atoms.prop(index=…)`)**. -/
+theorem propGetAtoms_fresh_unchanged (s : State) (h : Inv s) (o : Nat) (ix : Index) (ho : o < s.objs.length) (o' : Nat)
+    (s' : State) (hrun : propGetAtoms o ix s = (.ok o', s')) :
+    (∀ o'', o'' < s.objs.length → s'.obj o'' = s.obj o'' ∧ ∀ p ∈ (s.obj o'').props, arrVal s' p.arr = arrVal s p.arr) ∧
+    (∀ p' ∈ (s'.obj o').props, ∀ o'', ∀ p ∈ (s.obj o'').props, sharesMem s' p'.arr p.arr = false) := by
+  obtain ⟨⟨κ, hinv⟩, hb⟩ := h
+  have := propGetAtoms_frame hinv hb o ix ho
+  unfold Post at this
+  rw [hrun] at this
+  obtain ⟨hf, hfr⟩ := this.2 o' rfl
+  exact frame_fresh_meaning s s' ⟨⟨κ, hinv⟩, hb⟩ o' hf hfr
+
+/-- the constructor on literals (`Atoms(...)`) touches no existing object and shares nothing. -/
+theorem new_fresh_unchanged (s : State) (h : Inv s) (natoms : Option Int) (atype pos : Option Val)
+    (extra : List (String × Val)) (o' : Nat) (s' : State)
+    (hrun : mkAtoms natoms (atype.map .lit) (pos.map .lit) (extra.map (fun kv => (kv.1, Src.lit kv.2))) s = (.ok o', s')) :
+    (∀ o'', o'' < s.objs.length → s'.obj o'' = s.obj o'' ∧ ∀ p ∈ (s.obj o'').props, arrVal s' p.arr = arrVal s p.arr) ∧
+    (∀ p' ∈ (s'.obj o').props, ∀ o'', ∀ p ∈ (s.obj o'').props, sharesMem s' p'.arr p.arr = false) := by
+  have := mkAtoms_lit_frame natoms atype pos extra s
+  unfold Post at this
+  rw [hrun] at this
+  obtain ⟨_, hf, hfr, _, _⟩ := this.2 o' rfl
+  exact frame_fresh_meaning s s' h o' hf hfr
+
 /-! ## non-vacuity: concrete histories of the model (`K := Rat`) on which the hypotheses hold -/
 
 instance {α : Type} [DecidableEq α] : DecidableEq (Except Err α) := fun a b =>
